@@ -223,6 +223,23 @@ func ServiceListUpdateEventsFromChanges(tx ReadTxn, changes Changes) ([]stream.E
 			continue
 		}
 
+		// Rows are keyed by the lower-cased name. When the last instance of "web"
+		// goes and the first instance of "Web" arrives in one transaction the
+		// row is updated in place, but to a subscriber those are two names.
+		if change.Updated() {
+			if before := change.Before.(*KindServiceName); before.Service.Name != kindName.Service.Name {
+				events = append(events, stream.Event{
+					Topic: EventTopicServiceList,
+					Index: changes.Index,
+					Payload: &EventPayloadServiceListUpdate{
+						Op:             pbsubscribe.CatalogOp_Deregister,
+						Name:           before.Service.Name,
+						EnterpriseMeta: before.Service.EnterpriseMeta,
+					},
+				})
+			}
+		}
+
 		// TODO(peering): make this peer-aware.
 		payload := &EventPayloadServiceListUpdate{
 			Name:           kindName.Service.Name,
@@ -422,7 +439,9 @@ func ServiceHealthEventsFromChanges(tx ReadTxn, changes Changes) ([]stream.Event
 			before := srvChange.change.Before.(*structs.ServiceNode)
 			after := srvChange.change.After.(*structs.ServiceNode)
 
-			if before.ServiceName != after.ServiceName {
+			// (subjects are lower-cased: "web" and "Web" have the same subscribers,
+			// for whom the registration below replaces the instance)
+			if !strings.EqualFold(before.ServiceName, after.ServiceName) {
 				// Service was renamed, the code below will ensure the new registrations
 				// go out to subscribers to the new service name topic key, but we need
 				// to fix up subscribers that were watching the old name by sending
@@ -534,7 +553,7 @@ func ServiceHealthEventsFromChanges(tx ReadTxn, changes Changes) ([]stream.Event
 // service though as it still exists and didn't change its name.
 func isConnectProxyDestinationServiceChange(idx uint64, before, after *structs.ServiceNode) (stream.Event, bool) {
 	if before.ServiceKind != structs.ServiceKindConnectProxy ||
-		before.ServiceProxy.DestinationServiceName == after.ServiceProxy.DestinationServiceName {
+		strings.EqualFold(before.ServiceProxy.DestinationServiceName, after.ServiceProxy.DestinationServiceName) {
 		return stream.Event{}, false
 	}
 
@@ -731,14 +750,16 @@ func getNodeAndChecks(tx ReadTxn, node string, entMeta *acl.EnterpriseMeta, peer
 			if svcChecks == nil {
 				svcChecks = make(map[string]structs.HealthChecks)
 			}
-			svcChecks[check.ServiceID] = append(svcChecks[check.ServiceID], check)
+			// (the catalog matches a check to its service instance case-insensitively)
+			id := strings.ToLower(check.ServiceID)
+			svcChecks[id] = append(svcChecks[id], check)
 		}
 	}
 	serviceChecks := func(serviceID string) structs.HealthChecks {
 		// Create a new slice so that append does not modify the array backing nodeChecks.
 		result := make(structs.HealthChecks, 0, len(nodeChecks))
 		result = append(result, nodeChecks...)
-		result = append(result, svcChecks[serviceID]...)
+		result = append(result, svcChecks[strings.ToLower(serviceID)]...)
 		return result
 	}
 	return n, serviceChecks, nil
